@@ -400,6 +400,47 @@ impl Network {
 }
 
 impl Network {
+    /// An upper bound on the number of vehicles a schedule needs: each service trip can take as many
+    /// vehicles as its formation limit allows (or as it requires, if formations are unbounded)
+    /// and each maintenance track can host one vehicle.
+    pub fn upper_bound_on_vehicles(
+        service_trips: &HashMap<VehicleTypeIdx, Vec<ServiceTrip>>,
+        maintenance_slots: &[MaintenanceSlot],
+        vehicle_types: &VehicleTypes,
+    ) -> VehicleCount {
+        let vehicles_for_service_trips = service_trips
+            .iter()
+            .map(|(vehicle_type_idx, trips)| {
+                let vehicle_type = vehicle_types.get(*vehicle_type_idx).unwrap();
+                trips
+                    .iter()
+                    .map(|trip| {
+                        let required = trip
+                            .passengers()
+                            .div_ceil(vehicle_type.capacity())
+                            .max(trip.seated().div_ceil(vehicle_type.seats()))
+                            .max(1);
+                        match (
+                            vehicle_type.maximal_formation_count(),
+                            trip.maximal_formation_count(),
+                        ) {
+                            (Some(limit_of_type), Some(limit_of_trip)) => {
+                                limit_of_type.min(limit_of_trip)
+                            }
+                            (Some(limit), None) | (None, Some(limit)) => limit,
+                            (None, None) => required,
+                        }
+                    })
+                    .sum::<VehicleCount>()
+            })
+            .sum::<VehicleCount>();
+        let vehicles_for_maintenance = maintenance_slots
+            .iter()
+            .map(|slot| slot.track_count())
+            .sum::<VehicleCount>();
+        vehicles_for_service_trips + vehicles_for_maintenance
+    }
+
     /// create a new network from the given data.
     /// The nodes idx must be in such a way that service_trips flattened and then maintenance
     /// nodes as vec gives the index within the vector.
@@ -439,38 +480,10 @@ impl Network {
         // every vehicle serves at least one service trip or occupies a maintenance track. Types
         // with unbounded formations may need several vehicles per trip, and vehicles that are
         // spawned for maintenance only need a place as well.
-        let vehicles_for_service_trips = service_trips
-            .iter()
-            .map(|(vehicle_type_idx, trips)| {
-                let vehicle_type = vehicle_types.get(*vehicle_type_idx).unwrap();
-                trips
-                    .iter()
-                    .map(|trip| {
-                        let required = trip
-                            .passengers()
-                            .div_ceil(vehicle_type.capacity())
-                            .max(trip.seated().div_ceil(vehicle_type.seats()))
-                            .max(1);
-                        match (
-                            vehicle_type.maximal_formation_count(),
-                            trip.maximal_formation_count(),
-                        ) {
-                            (Some(limit_of_type), Some(limit_of_trip)) => {
-                                limit_of_type.min(limit_of_trip)
-                            }
-                            (Some(limit), None) | (None, Some(limit)) => limit,
-                            (None, None) => required,
-                        }
-                    })
-                    .sum::<VehicleCount>()
-            })
-            .sum::<VehicleCount>();
-        let vehicles_for_maintenance = maintenance_slots
-            .iter()
-            .map(|slot| slot.track_count())
-            .sum::<VehicleCount>();
+        let vehicles_for_service_trips_and_maintenance =
+            Network::upper_bound_on_vehicles(&service_trips, &maintenance_slots, &vehicle_types);
         let overflow_capacity = (number_of_service_nodes as VehicleCount * max_formation_count)
-            .max(vehicles_for_service_trips + vehicles_for_maintenance);
+            .max(vehicles_for_service_trips_and_maintenance);
         let overflow_depot_id = DepotIdx::from(depots.len() as Idx);
         let overflow_depot = Depot::new(
             overflow_depot_id,
